@@ -4,7 +4,7 @@ import re
 from fractions import Fraction
 
 from .. import sym, refcmp, dims, si_reference
-from ..match import params
+from ..match import params, is_call
 from ..effects import FuncEffects, describe
 from ..source import AnalysisError, literal, dotted
 
@@ -334,21 +334,81 @@ def unit_tables(chk, repo, R1='R10.1', R2='R10.2'):
     chk.ob(R1, not missing, BUILTIN, None, key='documented-names',
            qualname='<module>', what='every documented unit name is defined',
            found=str(missing))
-    # the registration loops feed the tables to the db unchanged
-    loops = [n for n in bnode.body if isinstance(n, ast.For)]
-    want = [("units_db.add(base, Quantity(mult, FundamentalUnits.new(prim)))",
-             'base_SI_units'),
-            ("units_db.add(name, eval_qty(val))", 'derived_SI_units'),
-            ("units_db.add(name, eval_qty(val))", 'other_units')]
-    ok = len(loops) == 3
+    # the registration loops feed the tables to the db unchanged: on the
+    # summary of the module body (a loop over `a + b` is a loop over the
+    # concatenated table)
+    fake = ast.FunctionDef(
+        name='<module>', args=ast.arguments(
+            posonlyargs=[], args=[], kwonlyargs=[], kw_defaults=[],
+            defaults=[]), body=list(bnode.body), decorator_list=[])
+    ast.copy_location(fake, bnode.body[0])
+    fake.end_lineno = bnode.body[-1].end_lineno
+    mpaths = sym.Summarizer(inline=False).summarize(fake)
+    ok = len(mpaths) == 1
+    found = '%d module paths' % len(mpaths)
     if ok:
-        for lp, (body, tab) in zip(loops, want):
-            ok = ok and dotted(lp.iter) == tab and len(lp.body) == 1 and \
-                ast.dump(ast.parse(body).body[0]) == ast.dump(lp.body[0])
-    chk.ob(R1, ok, BUILTIN, loops[0] if loops else bnode.body[0],
+        ev = sym.Evaluator(record_calls=False)
+        tab_keys = {}
+        for tname in ('base_SI_units', 'derived_SI_units', 'other_units'):
+            tab_keys[tname] = ev.k(repo.module_assign(BUILTIN, tname),
+                                   sym.State())
+        e0, e1, e2 = (('bv', 0, i) for i in range(3))
+        udb_add = ('attr', ('importfrom', '.db', 'units_db'), 'add')
+        body_base = ('call', udb_add, (e0, ('call', (
+            'importfrom', '.qty', 'Quantity'), (e1, ('call', ('attr', (
+                'importfrom', '.qty', 'FundamentalUnits'), 'new'), (e2,),
+                ())), ())), ())
+        body_expr = ('call', udb_add, (e0, ('call', (
+            'importfrom', '.qty', 'eval_qty'), (e1,), ())), ())
+        from .c05 import _sub_atom as _sub
+        regs = []
+        other = []
+
+        def classify(k):
+            if is_call(k) and k[1] == udb_add and len(k[2]) == 2 \
+                    and not k[3]:
+                a0, a1 = k[2]
+                if is_call(a1) and a1[1] == body_base[2][1][1] \
+                        and len(a1[2]) == 2 and is_call(a1[2][1]) \
+                        and a1[2][1][1] == body_base[2][1][2][1][1]:
+                    return ('tuple', (a0, a1[2][0], a1[2][1][2][0]))
+                if is_call(a1) and a1[1] == body_expr[2][1][1] \
+                        and len(a1[2]) == 1:
+                    return ('tuple', (a0, a1[2][0]))
+            return None
+        for e in mpaths[0].trace:
+            if e[0] == 'expr':
+                c = classify(e[1])
+                if c is not None:
+                    regs.append(c)
+                elif is_call(e[1]):
+                    other.append(show(e[1])[:60])
+            elif e[0] == 'loop':
+                (bv, it, _), = e[1]
+                bodies = e[2]
+                evs = [x for x in bodies[0][0] if x[0] in (
+                    'expr', 'store', 'loop', 'cond')] \
+                    if len(bodies) == 1 else None
+                c = classify(evs[0][1]) if evs is not None and len(
+                    evs) == 1 and evs[0][0] == 'expr' and bodies[0][1] \
+                    is None and it[0] == 'list' else None
+                if c is None:
+                    other.append('loop over ' + show(it)[:60])
+                    continue
+                for elt in it[1]:
+                    sub = dict(((('bv', 0, i)), elt[1][i])
+                               for i in range(len(elt[1]))) \
+                        if elt[0] == 'tuple' else {}
+                    regs.append(_sub(c, sub))
+        want = tab_keys['base_SI_units'][1] + \
+            tab_keys['derived_SI_units'][1] + tab_keys['other_units'][1]
+        ok = tuple(regs) == want and not other
+        found = '%d entries registered, %d in the tables; other effects: ' \
+                '%s' % (len(regs), len(want), other[:3])
+    chk.ob(R1, ok, BUILTIN, bnode.body[0],
            key='registration-loops', qualname='<module>',
            what='each table is registered entry by entry, unchanged, in '
-                'order')
+                'order', found=found)
     add = repo.func(DBF, 'UnitsDB.add')
     refcmp.check(chk, R1, DBF, add,
                  "def f(self, name, val):\n    self.db[name] = val\n",
